@@ -329,6 +329,23 @@ theorem log_is_applied_journal (cfg : Cfg) (s : State) (hr : Reachable cfg s) (t
       (s.journal.filter (fun j => j.out.applied && (j.tp == tp))).flatMap (fun j => batchMsgs s.batches j.batch) :=
   (invLogJ cfg s hr).logJournal tp
 
+/-- a produce request of a reachable state carries at least one message (C08.produce_nonempty, restated here for the
+compositions below) -/
+theorem produce_request_nonempty (cfg : Cfg) (s s' : State) (hr : Reachable cfg s) (pw : Nat) (tp : TP) (msgs : List Msg) (out : BrOut)
+    (hs : step cfg s (.produce pw tp msgs out) = some s') : msgs ≠ [] := by
+  have hA := invAck cfg s hr
+  have hF := invFresh cfg s hr
+  simp only [step, stepProduce] at hs
+  repeat' split at hs
+  all_goals (first | (cases hs; done) | skip)
+  rename_i _ P hP _ b k hsend _ B hB hg
+  obtain ⟨-, -, -, hm, -⟩ := hg
+  have hdet := hA.sentDet pw P hP b (sender_mem_sent (by rw [hsend]; rfl)) B hB
+  have := hF.detNonempty b B hB hdet
+  intro he
+  rw [← hm] at he
+  exact this (List.map_eq_nil_iff.mp he)
+
 /-- **produce_on_the_wire** — the Writer LTS composed with the record-batch writer model of C05
 (`protocol/record_v2.go writeToVersion2`, the encoder the Transport uses for produce v3+): for every produce event of
 every reachable state and every assignment `payload` of contents (time, key, value, headers) to the messages, the
@@ -347,22 +364,30 @@ theorem produce_on_the_wire (cfg : Cfg) (s s' : State) (hr : Reachable cfg s) (p
       Spec.RB.flattenEntry ⟨crc, crc⟩ (fun _ _ => none) (.batch f) =
         some (Spec.RB.isControl attrs,
           Model.RecordWriter.expected ((msgs.map payload).map (Model.RecordWriter.effTime now)) (msgs.map payload)) := by
-  -- the request is not empty
-  have hne : msgs ≠ [] := by
-    have hA := invAck cfg s hr
-    have hF := invFresh cfg s hr
-    simp only [step, stepProduce] at hs
-    repeat' split at hs
-    all_goals (first | (cases hs; done) | skip)
-    rename_i _ P hP _ b k hsend _ B hB hg
-    obtain ⟨-, -, -, hm, -⟩ := hg
-    have hdet := hA.sentDet pw P hP b (sender_mem_sent (by rw [hsend]; rfl)) B hB
-    have := hF.detNonempty b B hB hdet
-    intro he
-    rw [← hm] at he
-    exact this (List.map_eq_nil_iff.mp he)
+  have hne : msgs ≠ [] := produce_request_nonempty cfg s s' hr pw tp msgs out hs
   have hne' : msgs.map payload ≠ [] := fun h => hne (List.map_eq_nil_iff.mp h)
   obtain ⟨bytes, f, h1, h2, -, h4, -, h6⟩ := Model.RecordWriter.writeV2_spec crc hcrc attrs now (msgs.map payload) hne' hwf hcodec hlog
+  exact ⟨bytes, f, h1, h2, by rw [h4, List.length_map], h6⟩
+
+/-- **produce_on_the_wire_compressed** — the same composition for a Writer with `Compression` set (C05's
+`writeV2C_spec`): the batch's records are compressed as one payload with the configured codec `comp`; for every
+decompressor `dec` that inverts it the independent decoder recovers exactly the batch's messages, in order — compression
+passes the batch through untouched, whatever the codec. -/
+theorem produce_on_the_wire_compressed (cfg : Cfg) (s s' : State) (hr : Reachable cfg s) (pw : Nat) (tp : TP) (msgs : List Msg)
+    (out : BrOut) (hs : step cfg s (.produce pw tp msgs out) = some s')
+    (payload : Msg → Model.RecordWriter.PRec) (crc : Bytes → Nat) (hcrc : ∀ b, crc b < RW.M32)
+    (comp : Bytes → Bytes) (dec : Int → Bytes → Option Bytes) (attrs now : Int)
+    (hwf : (Model.RecordWriter.frameOfV2C comp attrs now (msgs.map payload)).WF) (hcodec : Spec.RB.codecOf attrs ≠ 0)
+    (hlog : Spec.RB.logAppend attrs = false) (hdec : ∀ p, dec (Spec.RB.codecOf attrs) (comp p) = some p) :
+    ∃ bytes f, Model.RecordWriter.writeV2C crc comp attrs now (msgs.map payload) = some bytes ∧
+      Spec.RB.readFrame crc bytes = some (f, []) ∧ f.count = msgs.length ∧
+      Spec.RB.flattenEntry ⟨crc, crc⟩ dec (.batch f) =
+        some (Spec.RB.isControl attrs,
+          Model.RecordWriter.expected ((msgs.map payload).map (Model.RecordWriter.effTime now)) (msgs.map payload)) := by
+  have hne : msgs ≠ [] := produce_request_nonempty cfg s s' hr pw tp msgs out hs
+  have hne' : msgs.map payload ≠ [] := fun h => hne (List.map_eq_nil_iff.mp h)
+  obtain ⟨bytes, f, h1, h2, -, h4, -, h6⟩ :=
+    Model.RecordWriter.writeV2C_spec crc hcrc comp dec attrs now (msgs.map payload) hne' hwf hcodec hlog hdec
   exact ⟨bytes, f, h1, h2, by rw [h4, List.length_map], h6⟩
 
 /-- **return_enabled_when_batches_done** — a synchronous caller is never stuck once its batches are completed: when
